@@ -415,8 +415,26 @@ impl World {
         };
         Some(match op {
             EditOp::Put { obj, key, val } => {
-                let (o, t) = self.pick_obj(r, *obj, &maps_and_lists)?;
-                let p = prop_for(&o, t, *key, false);
+                // one put in eight may land on a text object: put(text, i, "xyz") replaces one element by a string of another
+                // width, and two replicas doing so concurrently leave a conflicted element whose winner and losers differ in
+                // width - the prior state the index arithmetic of splice/delete/cursors has to get right (C03, C24, C26)
+                // (swarm: in one run of four every second put goes to a text object if there is one, so that some runs are
+                // rich in such conflicts)
+                let text_rich = self.cfg.p1 % 4 == 1;
+                let (o, t) = if text_rich && (*key >> 9) % 2 == 0 {
+                    let sel = if matches!(obj, ObjSel::Root) { ObjSel::Known(*key >> 3) } else { *obj };
+                    self.pick_obj(r, sel, &[OType::Text]).or_else(|| self.pick_obj(r, *obj, &maps_and_lists))?
+                } else if (*key >> 9) % 8 == 0 {
+                    self.pick_obj(r, *obj, &any)?
+                } else {
+                    self.pick_obj(r, *obj, &maps_and_lists)?
+                };
+                let mut p = prop_for(&o, t, *key, false);
+                if t == Some(OType::Text) && *key % 3 != 0 {
+                    // a per-run hot spot, so that different replicas hit the same element concurrently
+                    let len = doc.length(&o);
+                    p = PropK::Idx(if len == 0 { 0 } else { (self.cfg.p2 as usize % 3).min(len - 1) });
+                }
                 let seq = matches!(p, PropK::Idx(_));
                 (
                     Call::Put {
@@ -482,7 +500,9 @@ impl World {
             EditOp::SpliceText { obj, pos, del, text } => {
                 let (o, t) = self.pick_obj(r, *obj, &[OType::Text])?;
                 let len = doc.length(&o);
-                let pos = *pos as usize % (len + 1);
+                // one splice in four goes to the run's hot index (see Put): concurrent inserts at one position (RGA sibling
+                // order), deletes of an element another replica has just overwritten
+                let pos = if (*pos >> 12) % 4 == 0 { (self.cfg.p2 as usize % 3).min(len) } else { *pos as usize % (len + 1) };
                 let del = (*del as usize).min(len - pos);
                 (
                     Call::SpliceText {
